@@ -113,8 +113,13 @@ def scale_spec(draw, tier):
         base_sec = (512 + 1024 + bat_len) // 512 + 1
         hi = ((1 << 32) - 2 - base_sec) // span - 1
         slots = pick(draw, [0, 3, hi, hi // 2, (1 << 23) // span + 1, 99], len(idx))
-        spec["image"] = {"kind": "dynamic", "size": size, "legacy_footer": False, "block_size": bs, "dyn_offset": 512,
-                         "table_offset": 1536, "alloc": [[a, base_sec + s * span] for a, s in zip(idx, slots)], "layer": 0}
+        alloc = [[a, base_sec + s * span] for a, s in zip(idx, slots)]
+        # the dynamic header and the BAT are found through 64-bit offsets: in a grown image they may sit (far) beyond 4 GiB
+        meta_at = draw(st.sampled_from([512, 512, 512, 0xFFFFFE00, 1 << 32, (5 << 30) + 512, 3 << 39]))
+        if any(so * 512 < meta_at + 1024 + bat_len + 512 and meta_at < (so + span) * 512 for _a, so in alloc):
+            meta_at = 512
+        spec["image"] = {"kind": "dynamic", "size": size, "legacy_footer": False, "block_size": bs, "dyn_offset": meta_at,
+                         "table_offset": meta_at + 1024, "alloc": alloc, "layer": 0}
         spec["slot_base"] = [base_sec, span]
         unit = bs
         units = idx
@@ -164,7 +169,7 @@ def scale_spec(draw, tier):
             grain, gtes = 128, 512
             cap = draw(st.sampled_from([1 << 24, (1 << 32) + grain + 3, 1 << 34]))
             e = {"kind": "kdmv", "gtes": gtes, "compressed": True, "footer": True, "embedded_lba": draw(st.booleans()), "zero_flag": False,
-                 "redundant": False, "version": 3, "cmix": draw(st.integers(0, 2)),
+                 "redundant": False, "version": 3, "cmix": draw(st.integers(0, 4)),
                  "data_base": draw(st.sampled_from([(1 << 31), (1 << 32) - (1 << 26), 1 << 24]))}
             max_slot = 200
             spec["nbulk"] = 300
@@ -297,6 +302,9 @@ def with_bulk(spec, first):
     elif f == "vhd":
         base_sec, span = spec["slot_base"]
         used = sorted((so - base_sec) // span for _, so in im["alloc"])
+        if im["dyn_offset"] > 512:  # header and BAT somewhere inside the data area
+            nb_ = (im["size"] + im["block_size"] - 1) // im["block_size"]
+            used += list(range((im["dyn_offset"] // 512 - base_sec) // span - 1, ((im["table_offset"] + 4 * nb_) // 512 - base_sec) // span + 2))
         s0 = 1000
         while any(s0 - 2 <= u <= s0 + n + 2 for u in used):
             s0 += n + 300
